@@ -15,7 +15,7 @@ use std::rc::Rc;
 pub static ENGINE: Engine = Engine {
     prop: "C13",
     level: "model_checking",
-    rule: "explicit-state exploration of the hidden state of BDDEnv<usize> for k=2 variables (ids 1,5): state = set of interned structures = child-closed subset of the 14 possible internal nodes (ALL such subsets are enumerated; each is built in a fresh real environment by a history of public mk_choice calls from the initial table, and the build is checked to yield exactly that table); transitions = every public operation (var, mk_const, not, 8 binary, ite, exists/all/exists_impl x variable lists <= 2, aln/amn/exn x operand lists <= 2 x n in -1..3, count_* x lists <= 1, model, infer, retain x 3 filters, clean, find, simplify, fp x 3 transformers, mk_choice with ordered arguments) on every tuple of currently interned nodes. After every transition: result == the same call in a minimal fresh environment (and == canon of the expected function where defined); every previously held handle unchanged; every table key equals its value, every child pointer of every table node and the result are Rc::ptr_eq to the table entry of the same structure; both leaves present; size() = number of keys; table only grows. Abstraction check: for every state-changing edge S -op1-> S1 the real post-history environment and build(S1) give identical results and identical successor tables for a set of follow-up operations. Formula level: every sequence <= 3 of 10 formulas through ParsedFormula::new_with_env on one shared environment vs fresh environments with re-inspection of all earlier results. distinct = distinct (state, operation, operands)",
+    rule: "explicit-state exploration of the hidden state of BDDEnv<usize> for k=2 variables (ids 1,5): state = set of interned structures = child-closed subset of the 14 possible internal nodes (ALL such subsets are enumerated; each is built in a fresh real environment by a history of public mk_choice calls from the initial table, and the build is checked to yield exactly that table); transitions = every public operation (var, mk_const, not, 8 binary, ite, exists/all/exists_impl x variable lists <= 2, aln/amn/exn x operand lists <= 2 x n in -1..3, count_* x lists <= 1, model, infer, retain x 3 filters, clean, find, simplify, fp x 3 transformers, mk_choice with ordered arguments) on every tuple of currently interned nodes. After every transition: result == the same call in a minimal fresh environment (and == canon of the expected function where defined); every previously held handle unchanged; every table key equals its value, every child pointer of every table node and the result are Rc::ptr_eq to the table entry of the same structure; both leaves present; size() = number of keys; table only grows. Abstraction check: for every state-changing edge S -op1-> S1 the real post-history environment and build(S1) give identical results and identical successor tables for a set of follow-up operations. Long-lived histories: every sequence of 2 and 3 operations (not, 5 (3) binary connectives, exists, model, retain with both filters, clean on a pool of six functions plus earlier results; only the results are held, the operands are looked up in the table) on ONE environment, each result compared with a fresh environment, all earlier results re-inspected and the table invariants checked after every step. Formula level: every sequence <= 3 of 10 formulas through ParsedFormula::new_with_env on one shared environment vs fresh environments with re-inspection of all earlier results. distinct = distinct (state, operation, operands)",
     assumptions: &["state abstraction = table contents (validated by the abstraction check: equal tables have equal futures)", "k=2 for the complete exploration; larger variable sets only through the formula-level sequences"],
     max_shards: 64,
     run,
@@ -424,7 +424,14 @@ fn table_invariants(env: &BDDEnv<usize>, extra: &[&H]) -> Vec<String> {
     }
     for e in extra {
         shared(e, &mut out, "handed-out diagram");
+        // every sub-diagram reachable from a handed-out diagram is the shared table node
+        for n in robdd::distinct_nodes(e) {
+            if !Rc::ptr_eq(&n, e) {
+                shared(&n, &mut out, "sub-diagram of a handed-out diagram");
+            }
+        }
     }
+    out.dedup();
     out
 }
 
@@ -579,6 +586,149 @@ fn explore_state(ctx: &mut Ctx, w: &World, memo: &mut Memo, mask: u16, sc: Scope
     }
 }
 
+
+// ---------------------------------------------------------------------------------------
+// long-lived API histories: every sequence of operations on ONE environment
+
+const POOL: [u8; 6] = [0xa, 0xc, 0x5, 0x8, 0xe, 0x6];
+
+fn hist_ops(pool: &[u8], bins: &[Bin]) -> Vec<HOp> {
+    let mut v = vec![];
+    for &a in pool {
+        v.push(HOp::Not(a));
+        v.push(HOp::Model(a));
+        v.push(HOp::Retain(0, a));
+        v.push(HOp::Retain(1, a));
+        v.push(HOp::Clean(a));
+        v.push(HOp::Exists(vec![0], a));
+        v.push(HOp::Exists(vec![1], a));
+        for &b in pool {
+            for op in bins {
+                v.push(HOp::Bin(*op, a, b));
+            }
+        }
+    }
+    v
+}
+
+/// base construction through public connectives (itself part of every history)
+fn hist_env(w: &World) -> Space<usize> {
+    let sp = Space::<usize>::empty(&SYMS);
+    let e = &sp.env;
+    let a = e.var(SYMS[0]);
+    let b = e.var(SYMS[1]);
+    let _ = e.not(a.clone());
+    let _ = e.and(a.clone(), b.clone());
+    let _ = e.or(a.clone(), b.clone());
+    let _ = e.xor(a, b);
+    let _ = w;
+    sp
+}
+
+fn hist_case(ops: &[HOp]) -> Value {
+    json!({"part": "history", "ops": ops.iter().map(enc_op).collect::<Vec<_>>(), "shown": ops.iter().map(|o| format!("{:?}", o)).collect::<Vec<_>>()})
+}
+
+fn run_history(ctx: &mut Ctx, w: &World, memo: &mut Memo, ops: &[HOp]) {
+    ctx.begin_case(|| hist_case(ops));
+    ctx.count("history_sequences", 1);
+    ctx.count("distinct_by_construction", 1);
+    let sp = match guarded(|| hist_env(w)) {
+        Ok(s) => s,
+        Err(p) => {
+            ctx.violation(format!("{TAG} history: base construction"), format!("panicked: {p}"), hist_case(&[]));
+            return;
+        }
+    };
+    let mut held: Vec<(H, H)> = vec![];
+    for (i, op) in ops.iter().enumerate() {
+        ctx.count("transitions", 1);
+        let key = || format!("{TAG} one environment: var,var,not,and,or,xor then {:?}", &ops[..=i]);
+        // operands must be interned by now (base functions or earlier results)
+        if operands(op).iter().any(|t| sp.env.nodes.borrow().get(w.sp.canon(*t as u64).as_ref()).is_none()) {
+            return; // operand is not available in this history: not a case
+        }
+        let out = match guarded(|| exec(w, &sp.env, op)) {
+            Err(p) => {
+                ctx.violation(key(), format!("operation panicked: {p}"), hist_case(&ops[..=i]));
+                return;
+            }
+            Ok(o) => o,
+        };
+        let mut c = vec![];
+        match fresh_result(w, memo, op) {
+            Ok(fr) if fr != out => c.push(format!("result {} differs from the same call in a fresh environment ({})", show_out(&out), show_out(&fr))),
+            Err(p) => c.push(format!("the same call panicked in a fresh environment: {p}")),
+            _ => {}
+        }
+        if let (Some(want), Out::D(d)) = (expected_tt(op), &out) {
+            if **d != *w.sp.canon(want) {
+                c.push(format!("result {} is not the diagram of the expected function {want:#x}", robdd::show(d)));
+            }
+        }
+        for (h, snap) in &held {
+            if **h != **snap {
+                c.push("a diagram handed out earlier changed".to_string());
+            }
+        }
+        let extra: Vec<&H> = held.iter().map(|(h, _)| h).chain(if let Out::D(d) = &out { Some(d) } else { None }).collect();
+        c.extend(table_invariants(&sp.env, &extra));
+        if !c.is_empty() {
+            c.truncate(3);
+            ctx.violation(key(), c.join("; "), hist_case(&ops[..=i]));
+            return;
+        }
+        if let Out::D(d) = out {
+            held.push((d.clone(), robdd::deep_copy(&d)));
+        }
+    }
+}
+
+fn api_histories(ctx: &mut Ctx, w: &World, memo: &mut Memo) {
+    let all_bins = [Bin::And, Bin::Or, Bin::Xor, Bin::Implies, Bin::Iff];
+    let few_bins = [Bin::And, Bin::Or, Bin::Xor];
+    let th = ctx.thorough();
+    let mut idx = 0u64;
+    // results of earlier steps join the operand pool of later steps
+    fn result_tt(w: &World, memo: &mut Memo, op: &HOp) -> Option<u8> {
+        match fresh_result(w, memo, op) {
+            Ok(Out::D(d)) => w.sp.tt(&d).ok().map(|t| t as u8),
+            _ => None,
+        }
+    }
+    let ext = |pool: &[u8], t: Option<u8>| -> Vec<u8> {
+        let mut p = pool.to_vec();
+        if let Some(t) = t {
+            if !p.contains(&t) {
+                p.push(t);
+            }
+        }
+        p
+    };
+    for op1 in hist_ops(&POOL, &all_bins) {
+        let p2 = ext(&POOL, result_tt(w, memo, &op1));
+        for op2 in hist_ops(&p2, &all_bins) {
+            idx += 1;
+            if ctx.mine(idx) {
+                run_history(ctx, w, memo, &[op1.clone(), op2.clone()]);
+            }
+            // third step: full alphabet in thorough, and/or/xor in quick
+            let deep_ok = th || (matches!(&op1, HOp::Bin(b, ..) if few_bins.contains(b)) || !matches!(&op1, HOp::Bin(..))) && (matches!(&op2, HOp::Bin(b, ..) if few_bins.contains(b)) || !matches!(&op2, HOp::Bin(..)));
+            if !deep_ok {
+                continue;
+            }
+            idx += 1;
+            if !ctx.mine(idx) {
+                continue;
+            }
+            let p3 = ext(&p2, result_tt(w, memo, &op2));
+            for op3 in hist_ops(&p3, if th { &all_bins } else { &few_bins }) {
+                run_history(ctx, w, memo, &[op1.clone(), op2.clone(), op3]);
+            }
+        }
+    }
+}
+
 // ---------------------------------------------------------------------------------------
 // formula level: sequences of formulas sharing one environment
 
@@ -703,11 +853,18 @@ fn run(ctx: &mut Ctx) {
         let n = mask.count_ones() as usize;
         explore_state(ctx, &w, &mut memo, mask, scope(ctx.thorough(), n), ctx.thorough() || n <= 8);
     }
+    api_histories(ctx, &w, &mut memo);
     formula_sequences(ctx);
 }
 
 fn replay(ctx: &mut Ctx, case: &Value) {
     match case["part"].as_str() {
+        Some("history") => {
+            let w = World::new();
+            let mut memo = Memo { fresh: FxHashMap::default() };
+            let ops: Vec<HOp> = case["ops"].as_array().map(|a| a.iter().filter_map(dec_op).collect()).unwrap_or_default();
+            run_history(ctx, &w, &mut memo, &ops);
+        }
         Some("formulas") => {
             // re-run the whole (tiny) formula-level part; the recorded sequence is among them
             let mut c2 = Ctx::new("C13", ctx.tier, ctx.seed, 0, 1);
